@@ -6,7 +6,7 @@ From FT.lib Require Import Num Arr ArrLemmas Lower NumArr.
 From FT.gen Require Import Common Interp2d Interp3d Vinterp2d Vinterp3d FteikCommon Fteik2d Fteik3d Ray2d Ray3d.
 From FT.model Require Import Api.
 From FT.proofs Require Import Sweep2dProofs OperatorsR ApiProofs.
-From FT.proofs Require Operators3R InitSym InitExact SolveScale2d.
+From FT.proofs Require Operators3R InitSym InitExact SolveScale2d NonNeg3d SolveScale3d.
 Import ListNotations.
 Open Scope R_scope.
 
@@ -267,6 +267,108 @@ Theorem C05_solve2d_scale_slowness_bounded :
          SolveScale2d.SameReach (dim slow 0 + 1) (dim slow 1 + 1) tt tt'.
 Proof. exact @SolveScale2d.fteik2d_scale_slowness_bounded. Qed.
 
+(* 3D: one generated node update under slowness or length scaling (dz2i etc. / c^2, pairwise products / c^4): the written value scales (or is the placeholder in both runs) under the node-level placeholder caveat node_cav3 *)
+Theorem C05_node_update_3d_scale :
+  forall (c : R) (k : InitExact.skind),
+       0 < c ->
+       forall (nz nx ny : Z) (slow : arr R) (dz dx dy : R) (tt tt' : arr R) (ttsgn ttsgn' : arr Z)
+         (i j kk sgnvz sgnvx sgnvy sgntz sgntx sgnty : Z) (grad grad' : bool),
+       0 < dz ->
+       0 < dx ->
+       0 < dy ->
+       NonNeg2d.nonneg slow ->
+       SolveScale3d.GRel c tt tt' ->
+       SolveScale3d.node_cav3 c (get 0 tt [i; j; kk]) (NonNeg3d.nb_v tt i j kk sgntz) (NonNeg3d.nb_e tt i j kk sgntx)
+         (NonNeg3d.nb_n tt i j kk sgnty) (NonNeg3d.nb_ev tt i j kk sgntz sgntx) (NonNeg3d.nb_en tt i j kk sgntx sgnty)
+         (NonNeg3d.nb_nv tt i j kk sgntz sgnty) (NonNeg3d.nb_nve tt i j kk sgntz sgntx sgnty)
+         (NonNeg3d.edge_s_z slow i j kk sgnvz nx ny) (NonNeg3d.edge_s_x slow i j kk sgnvx nz ny)
+         (NonNeg3d.edge_s_y slow i j kk sgnvy nz nx) (NonNeg3d.face_s_zx slow i j kk sgnvz sgnvx ny)
+         (NonNeg3d.face_s_zy slow i j kk sgnvz sgnvy nx) (NonNeg3d.face_s_xy slow i j kk sgnvx sgnvy nz)
+         (NonNeg3d.cell_s slow i j kk sgnvz sgnvx sgnvy) dz dx dy ->
+       SolveScale3d.GRel c
+         (fst
+            (sweep tt ttsgn slow (SweepDargs.dargs3 dz dx dy) i j kk sgnvz sgnvx sgnvy sgntz sgntx sgnty nz nx ny grad))
+         (fst
+            (sweep tt' ttsgn' (InitExact.sc_slow k c slow)
+               (SweepDargs.dargs3 (InitExact.sc_h k c dz) (InitExact.sc_h k c dx) (InitExact.sc_h k c dy)) i j kk sgnvz
+               sgnvx sgnvy sgntz sgntx sgnty nz nx ny grad')).
+Proof. exact @SolveScale3d.sweep_node_scale. Qed.
+
+(* the WHOLE 3D solver under slowness scaling by any c > 0; the caveats InitCav / SweepCav3 are conditions on the reference run only *)
+Theorem C05_solve3d_scale_slowness :
+  forall (c : R) (slow : arr R) (dz dx dy zsrc xsrc ysrc : R) (nsweep : Z) (grad : bool) (tt g : arr R) (vz : R),
+       0 < c ->
+       0 < dz ->
+       0 < dx ->
+       0 < dy ->
+       (0 <= dim slow 0)%Z ->
+       (0 <= dim slow 1)%Z ->
+       (0 <= dim slow 2)%Z ->
+       NonNeg2d.nonneg slow ->
+       fteik3d slow dz dx dy zsrc xsrc ysrc nsweep grad = Ok (tt, g, vz) ->
+       SolveScale3d.InitCav c slow dz dx dy zsrc xsrc ysrc ->
+       SolveScale3d.SweepCav3 c slow dz dx dy zsrc xsrc ysrc nsweep ->
+       exists tt' g' : arr R,
+         fteik3d (smap c slow) dz dx dy zsrc xsrc ysrc nsweep grad = Ok (tt', g', c * vz) /\
+         SolveScale3d.TRel3 (dim slow 0 + 1) (dim slow 1 + 1) (dim slow 2 + 1) c tt tt' /\
+         SolveScale3d.SameReach3 (dim slow 0 + 1) (dim slow 1 + 1) (dim slow 2 + 1) tt tt'.
+Proof. exact @SolveScale3d.fteik3d_scale_slowness. Qed.
+
+(* and under length scaling of the three spacings and the source *)
+Theorem C05_solve3d_scale_length :
+  forall (c : R) (slow : arr R) (dz dx dy zsrc xsrc ysrc : R) (nsweep : Z) (grad : bool) (tt g : arr R) (vz : R),
+       0 < c ->
+       0 < dz ->
+       0 < dx ->
+       0 < dy ->
+       (0 <= dim slow 0)%Z ->
+       (0 <= dim slow 1)%Z ->
+       (0 <= dim slow 2)%Z ->
+       NonNeg2d.nonneg slow ->
+       fteik3d slow dz dx dy zsrc xsrc ysrc nsweep grad = Ok (tt, g, vz) ->
+       SolveScale3d.InitCav c slow dz dx dy zsrc xsrc ysrc ->
+       SolveScale3d.SweepCav3 c slow dz dx dy zsrc xsrc ysrc nsweep ->
+       exists tt' g' : arr R,
+         fteik3d slow (c * dz) (c * dx) (c * dy) (c * zsrc) (c * xsrc) (c * ysrc) nsweep grad = Ok (tt', g', vz) /\
+         SolveScale3d.TRel3 (dim slow 0 + 1) (dim slow 1 + 1) (dim slow 2 + 1) c tt tt' /\
+         SolveScale3d.SameReach3 (dim slow 0 + 1) (dim slow 1 + 1) (dim slow 2 + 1) tt tt'.
+Proof. exact @SolveScale3d.fteik3d_scale_length. Qed.
+
+(* raise behaviour identical, no caveat *)
+Theorem C05_solve3d_scale_raises :
+  forall (c : R) (k : InitExact.skind) (slow : arr R) (dz dx dy zsrc xsrc ysrc : R) (nsweep : Z) (grad : bool),
+       0 < c ->
+       fteik3d (InitExact.sc_slow k c slow) (InitExact.sc_h k c dz) (InitExact.sc_h k c dx) 
+         (InitExact.sc_h k c dy) (InitExact.sc_h k c zsrc) (InitExact.sc_h k c xsrc) (InitExact.sc_h k c ysrc) nsweep
+         grad = Raise ValueError <-> fteik3d slow dz dx dy zsrc xsrc ysrc nsweep grad = Raise ValueError.
+Proof. exact @SolveScale3d.fteik3d_scale_raises. Qed.
+
+(* numeric form of the caveat for c >= 1 *)
+Theorem C05_solve3d_scale_slowness_bounded :
+  forall (c : R) (slow : arr R) (dz dx dy zsrc xsrc ysrc : R) (nsweep : Z) (grad : bool) 
+         (tt g : arr R) (vz h S0 Lm : R),
+       1 <= c ->
+       0 < dz <= h ->
+       0 < dx <= h ->
+       0 < dy <= h ->
+       (1 <= dim slow 0)%Z ->
+       (1 <= dim slow 1)%Z ->
+       (1 <= dim slow 2)%Z ->
+       0 <= S0 ->
+       SolveScale3d.SlowBnd S0 slow ->
+       SolveScale3d.LmixBnd dz dx dy Lm ->
+       c *
+       (2 *
+        (3 * h * S0 +
+         INR (length (SolveScale3d.all_steps3 (dim slow 0 + 1) (dim slow 1 + 1) (dim slow 2 + 1) nsweep)) *
+         (3 * h * S0)) + 2 * S0 * Lm) < Big ->
+       fteik3d slow dz dx dy zsrc xsrc ysrc nsweep grad = Ok (tt, g, vz) ->
+       exists tt' g' : arr R,
+         fteik3d (smap c slow) dz dx dy zsrc xsrc ysrc nsweep grad = Ok (tt', g', c * vz) /\
+         SolveScale3d.TRel3 (dim slow 0 + 1) (dim slow 1 + 1) (dim slow 2 + 1) c tt tt' /\
+         SolveScale3d.SameReach3 (dim slow 0 + 1) (dim slow 1 + 1) (dim slow 2 + 1) tt tt'.
+Proof. exact @SolveScale3d.fteik3d_scale_slowness_bounded. Qed.
+
 Print Assumptions C05_t_ana_scale_slowness.
 Print Assumptions C05_t_ana_scale_length.
 Print Assumptions C05_t_anad_scale_slowness.
@@ -287,3 +389,8 @@ Print Assumptions C05_solve2d_scale_slowness.
 Print Assumptions C05_solve2d_scale_length.
 Print Assumptions C05_solve2d_scale_raises.
 Print Assumptions C05_solve2d_scale_slowness_bounded.
+Print Assumptions C05_node_update_3d_scale.
+Print Assumptions C05_solve3d_scale_slowness.
+Print Assumptions C05_solve3d_scale_length.
+Print Assumptions C05_solve3d_scale_raises.
+Print Assumptions C05_solve3d_scale_slowness_bounded.
